@@ -301,6 +301,7 @@ def check(P, R):
     c09.check_shared_writes(P, R, 'C08.d', strict=True, same_for_all_threads_ok=True, skip_config_time=True, pure_memo_ok=True)
     check_shared_slots(P, R, 'C08.d')
     check_request_copy(P, R, 'C08.d', 'nothing of one in-flight request is observable by another')
+    check_no_interpreter_slots_read(P, R, 'C08.d')
     # the error objects kept in errors_map are single instances for all threads: the request path only reads them
     from ..report import Sub as _Sub8
     c09.check_error_objects_read_only(P, _Sub8(R, why='an error object shared by all threads is not written while one of them renders it'), 'C08.d')
@@ -319,6 +320,27 @@ def check(P, R):
         def __getattr__(self, k):
             return getattr(self._R, k)
     c09.check_apply(P, _SubApply(R))
+
+
+def check_no_interpreter_slots_read(P, R, rid):
+    """`__context__`, `__cause__`, `__traceback__` of an exception object are written by the interpreter at every raise; the mapped error responses are single
+    objects raised by every request, so what is read from these slots while rendering is whatever the last raise - possibly another thread's - left there"""
+    for fq in ('ombott.error_render:render', 'ombott.ombott:Ombott.default_error_handler'):
+        f = P.maybe_func(fq)
+        if f is None:
+            continue
+        for x in walk_shallow(f.node):
+            name = None
+            if isinstance(x, ast.Attribute) and x.attr in ('__context__', '__cause__', '__traceback__') and isinstance(x.ctx, ast.Load):
+                name = x.attr
+            elif isinstance(x, ast.Call) and dotted(x.func) == 'getattr' and len(x.args) >= 2 and isinstance(x.args[1], ast.Constant) \
+                    and x.args[1].value in ('__context__', '__cause__', '__traceback__'):
+                name = x.args[1].value
+            if name:
+                R.ob(rid, f, x, False, text=f'`{short(x)}`: the renderer reads only what was stored on the error for this request', detail=
+                     f'`{short(x)}` reads `{name}`, which the interpreter rewrites whenever the object is raised: the errors in config.errors_map are shared by all requests, so '
+                     f'between the raise and the rendering of one request another thread\'s raise replaces it - the page shows the other request\'s failure',
+                     why='nothing of one in-flight request is observable by another', key_extra=f'interpreter-slot:{name}')
 
 
 def check_request_copy(P, R, rid, why):
